@@ -3,6 +3,7 @@ package main
 import (
 	"fmt"
 	"sort"
+	"strconv"
 
 	"verif/drv"
 	"verif/e1lib"
@@ -143,7 +144,19 @@ func c09Check(c forkh.Cfg) func(o *obs.Obs) string {
 				if !o.Has(n + "-eof") {
 					return fmt.Sprintf("%s/not-closed|output %q never closed; library: %v", tag, n, o.LibBlocked())
 				}
-			} else if c.Stage != "fold" && !obs.SubMultiset(got, outs[n]) {
+			} else if c.Stage == "fold" {
+				if cancelled && c.InCap == 0 && c.Stop == -1 {
+					if m := foldCancelled(tag, c, o); m != "" {
+						return m
+					}
+				}
+				total, _ := strconv.Atoi(outs[n][0])
+				for _, g := range got {
+					if v, _ := strconv.Atoi(g); len(got) > 1 || v&^total != 0 {
+						return fmt.Sprintf("%s/invented|fork.Fold delivered %v: more than one value, or not a sum of elements of the input %v each taken once", tag, got, c.Input)
+					}
+				}
+			} else if !obs.SubMultiset(got, outs[n]) {
 				return fmt.Sprintf("%s/invented|output %q delivered %v: not contained in %v", tag, n, got, outs[n])
 			}
 		}
@@ -278,12 +291,20 @@ func c09Scenarios(tier string) []e1lib.Scenario {
 						if !cancel && stop == -1 {
 							continue
 						}
-						for _, st := range []string{"map", "fmap", "filter", "partition", "foreach", "void"} {
-							if (st == "foreach" || st == "void") && stop != -1 {
+						for _, st := range []string{"map", "fmap", "filter", "partition", "foreach", "void", "fold"} {
+							if (st == "foreach" || st == "void") && stop != -1 || (st == "fold" && stop == 1) {
 								continue
 							}
 							c := base
 							c.Stage, c.Cancel, c.Stop, c.Stop2, c.Mode = st, cancel, stop, stop, "pure"
+							if st == "fold" {
+								// the sum of distinct powers of two is the bag of what was combined: under cancel at most one value, made of input elements only
+								c.Monoid = "sum"
+								c.Input = make([]int, len(base.Input))
+								for i := range c.Input {
+									c.Input[i] = 1 << (3 * (i + 1))
+								}
+							}
 							bound := bound
 							if s.par*s.k >= 8 {
 								bound = 2 // the cancel family multiplies the schedules; fmap at 3x3 did not finish with bound 3 in 20 min
